@@ -5,13 +5,15 @@ import (
 	"io"
 	"os"
 	"path/filepath"
+	"strings"
 )
 
 // CheckFilename refuses anything but a bare file name. The files a .dsc or
 // .changes lists live next to it; a name with a directory part (or "..")
 // would make Copy, Move and Remove act on files somewhere else.
 func CheckFilename(name string) error {
-	if name == "." || name == ".." || filepath.Base(name) != name {
+	if name == "" || name == "." || name == ".." || filepath.Base(name) != name || strings.ContainsRune(name, filepath.Separator) {
+		/* (filepath.Base("/") is "/": that is the directory itself) */
 		return fmt.Errorf("Refusing to touch '%s': not a plain file name", name)
 	}
 	return nil
